@@ -266,7 +266,7 @@ class Case:
         return out
 
 
-def run_harness(exe, cases, timeout=600):
+def run_harness(exe, cases, timeout=600, max_problems=4):
     """run the cases in harness processes; returns per case the list of output lines (one per op, a
     program produces one line) or None when the harness stalled/crashed while running that case"""
     res = [None] * len(cases)
@@ -297,6 +297,9 @@ def run_harness(exe, cases, timeout=600):
         if i >= len(cases):
             break
         problems.append({"case": i, "rc": rc, "stderr": err, "partial": out[pos:][-3:]})
+        if len(problems) >= max_problems:
+            # enough evidence: every further stall costs the watchdog's timeout again
+            break
         start = i + 1
     return res, problems
 
